@@ -17,7 +17,7 @@ Require Import ITree.Spec.Spec ITree.Spec.MapSpec.
 Require Import ITree.Proofs.RBInv ITree.Proofs.PoolProofs ITree.Proofs.MapProofs ITree.Proofs.MapTheorems
   ITree.Proofs.KeyListProofs ITree.Proofs.KeyProofs ITree.Proofs.KeyRefine ITree.Proofs.KeyTheorems.
 Require ITree.Proofs.ListProofs ITree.Model.SegModel ITree.Proofs.SegProofs ITree.Proofs.LayoutProofs.
-Require ITree.Model.ArenaModel ITree.Proofs.ArenaProofs ITree.Model.ArenaDelete ITree.Proofs.ArenaDeleteProofs.
+Require ITree.Model.ArenaModel ITree.Proofs.ArenaProofs ITree.Model.ArenaDelete ITree.Proofs.ArenaDeleteProofs ITree.Model.ArenaKey ITree.Proofs.ArenaKeyProofs.
 
 (* removal from a valid red-black tree never needs a sibling or nephew that is missing (the Rust code
    would dereference node(EMPTY_REF) there) *)
@@ -82,16 +82,16 @@ Qed.
    2*height+2 iterations of its descent and repair loops, removal of a stored slot of a valid
    red-black tree at most height-many of each loop (find_left_minimum, the repair recursion), and
    neither ever reads node(EMPTY_REF) ([ErrStuck]) or runs out of its bound ([ErrFuel]) *)
-Theorem C10_arena_insert_total : forall (s: ArenaModel.astate) (t: tree ment) (ni: N) (e: ment) (fuel: nat),
+Theorem C10_arena_insert_total : forall (s: ArenaModel.astate ment) (t: tree ment) (ni: N) (e: ment) (fuel: nat),
   ArenaProofs.Rep s ArenaModel.EMPTY (ArenaModel.aroot s) t -> List.NoDup (slots ment t) ->
   ~ List.In ni (slots ment t) -> ni <> ArenaModel.EMPTY -> (2 * height ment t + 2 <= fuel)%nat ->
-  exists s', ArenaModel.arena_insert fuel s ni e = Ret s'.
+  exists s', ArenaModel.arena_insert mkey fuel s ni e = Ret s'.
 Proof.
   intros s t ni e fuel H1 H2 H3 H4 H5.
-  destruct (ArenaProofs.arena_insert_refines s t ni e fuel H1 H2 H3 H4 H5) as (s' & Hs' & _). exists s'. exact Hs'.
+  destruct (ArenaProofs.arena_insert_refines mkey s t ni e fuel H1 H2 H3 H4 H5) as (s' & Hs' & _). exists s'. exact Hs'.
 Qed.
 
-Theorem C10_arena_delete_total : forall (s: ArenaModel.astate) (t: tree ment) (x: N) (fuel: nat),
+Theorem C10_arena_delete_total : forall (s: ArenaModel.astate ment) (t: tree ment) (x: N) (fuel: nat),
   ArenaProofs.Rep s ArenaModel.EMPTY (ArenaModel.aroot s) t -> List.NoDup (slots ment t) ->
   ~ List.In 0%N (slots ment t) -> rbi ment t -> List.In x (slots ment t) -> (height ment t <= fuel)%nat ->
   exists s' f, ArenaDelete.arena_delete fuel s x = Ret (s', f).
@@ -100,3 +100,29 @@ Proof.
   destruct (ArenaDeleteProofs.arena_delete_refines_frame s t x fuel H1 H2 H3 H4 H5 H6) as (t' & d & f & s' & _ & Hs' & _).
   exists s', f. exact Hs'.
 Qed.
+
+(* the expiring-key tree's own loops on the arena (Model/ArenaKey.v: expire_root, expire_left / right,
+   the search loops, insert_entity): within the contract every query and every insertion returns
+   normally - no loop exceeds ksize-many (repair: 2*ksize+2) iterations, nothing is read through
+   EMPTY_REF, the free list is never popped empty - and leaves an arena that represents the model's
+   tree with consistent links *)
+Theorem C10_arena_key_query_total : forall (q: qkind) (f: Z -> comparison) (time: Z) (s: kstate)
+  (a: ArenaModel.astate kent) (dfuel efuel sfuel: nat),
+  KeyProofs.monotone f -> KInv s -> one_eq_live f time (kroot s) ->
+  ArenaProofs.Rep a ArenaModel.EMPTY (ArenaModel.aroot a) (kroot s) ->
+  (size kent (kroot s) <= dfuel)%nat -> (size kent (kroot s) < efuel)%nat -> (S (size kent (kroot s)) < sfuel)%nat ->
+  exists s' out evs a', k_query q f s time = Ret (s', out, evs) /\
+    ArenaKey.arena_query dfuel efuel sfuel q f (a, kpl s) time = Ret ((a', kpl s'), out) /\
+    ArenaProofs.Rep a' ArenaModel.EMPTY (ArenaModel.aroot a') (kroot s') /\ KInv s'.
+Proof. exact ArenaKeyProofs.arena_query_total. Qed.
+
+Theorem C10_arena_key_insert_total : forall (ne: kent) (time: Z) (s: kstate) (a: ArenaModel.astate kent)
+  (dfuel efuel sfuel ifuel: nat),
+  KInv s -> (forall e, In e (ents kent (kroot s)) -> live time e = true -> kk e <> kk ne) ->
+  ArenaProofs.Rep a ArenaModel.EMPTY (ArenaModel.aroot a) (kroot s) ->
+  (size kent (kroot s) <= dfuel)%nat -> (size kent (kroot s) < efuel)%nat -> (size kent (kroot s) < sfuel)%nat ->
+  (2 * size kent (kroot s) + 2 <= ifuel)%nat -> (blen (kpl s) < ArenaModel.EMPTY)%N ->
+  exists s' evs a', k_insert s ne time = Ret (s', evs) /\
+    ArenaKey.arena_k_insert dfuel efuel sfuel ifuel (a, kpl s) ne time = Ret (a', kpl s') /\
+    ArenaProofs.Rep a' ArenaModel.EMPTY (ArenaModel.aroot a') (kroot s') /\ KInv s'.
+Proof. exact ArenaKeyProofs.arena_k_insert_total. Qed.
